@@ -122,6 +122,10 @@ func check(which, tier string, dump bool) (code int) {
 		return failAll("snapshot failed: " + err.Error())
 	}
 	defer snap.Close()
+	if err := snap.AddFixtures(vdir); err != nil {
+		return failAll(err.Error())
+	}
+	patterns["./verif_fixtures/..."] = true
 
 	var specs []rules.GenSpec
 	var mats []*pipeline.Materialised
